@@ -90,23 +90,23 @@ func (r *ReplicateMeteImpl) UpdateTaskDropCollectionMsg(ctx context.Context, msg
 	defer r.metaLock.Unlock()
 	taskMsgs, ok := r.dropCollectionMsgs[msg.Base.TaskID]
 	if !ok {
+		// memory follows the store: the report is kept only once it is persisted
+		metaMsg, err := msg.ConvertToMetaMsg()
+		if err != nil {
+			return false, err
+		}
+		err = r.store.Put(ctx, GetMetaKey(msg.Base.TaskID, msg.Base.MsgID), metaMsg)
+		if err != nil {
+			return false, err
+		}
 		taskMsgs = map[string]api.TaskDropCollectionMsg{
 			msg.Base.MsgID: msg,
 		}
 		r.dropCollectionMsgs[msg.Base.TaskID] = taskMsgs
-		metaMsg, err := msg.ConvertToMetaMsg()
-		if err != nil {
-			return false, err
-		}
-		err = r.store.Put(ctx, GetMetaKey(msg.Base.TaskID, msg.Base.MsgID), metaMsg)
-		if err != nil {
-			return false, err
-		}
 		return msg.Base.IsReady(), nil
 	}
 	var taskMsg api.TaskDropCollectionMsg
 	if taskMsg, ok = taskMsgs[msg.Base.MsgID]; !ok {
-		taskMsgs[msg.Base.MsgID] = msg
 		metaMsg, err := msg.ConvertToMetaMsg()
 		if err != nil {
 			return false, err
@@ -115,6 +115,7 @@ func (r *ReplicateMeteImpl) UpdateTaskDropCollectionMsg(ctx context.Context, msg
 		if err != nil {
 			return false, err
 		}
+		taskMsgs[msg.Base.MsgID] = msg
 		return msg.Base.IsReady(), nil
 	}
 	taskMsg.Base.ReadyChannels = lo.Union[string](taskMsg.Base.ReadyChannels, msg.Base.ReadyChannels)
@@ -161,23 +162,23 @@ func (r *ReplicateMeteImpl) UpdateTaskDropPartitionMsg(ctx context.Context, msg 
 	defer r.metaLock.Unlock()
 	taskMsgs, ok := r.dropPartitionMsgs[msg.Base.TaskID]
 	if !ok {
+		// memory follows the store: the report is kept only once it is persisted
+		metaMsg, err := msg.ConvertToMetaMsg()
+		if err != nil {
+			return false, err
+		}
+		err = r.store.Put(ctx, GetMetaKey(msg.Base.TaskID, msg.Base.MsgID), metaMsg)
+		if err != nil {
+			return false, err
+		}
 		taskMsgs = map[string]api.TaskDropPartitionMsg{
 			msg.Base.MsgID: msg,
 		}
 		r.dropPartitionMsgs[msg.Base.TaskID] = taskMsgs
-		metaMsg, err := msg.ConvertToMetaMsg()
-		if err != nil {
-			return false, err
-		}
-		err = r.store.Put(ctx, GetMetaKey(msg.Base.TaskID, msg.Base.MsgID), metaMsg)
-		if err != nil {
-			return false, err
-		}
 		return msg.Base.IsReady(), nil
 	}
 	var taskMsg api.TaskDropPartitionMsg
 	if taskMsg, ok = taskMsgs[msg.Base.MsgID]; !ok {
-		taskMsgs[msg.Base.MsgID] = msg
 		metaMsg, err := msg.ConvertToMetaMsg()
 		if err != nil {
 			return false, err
@@ -186,6 +187,7 @@ func (r *ReplicateMeteImpl) UpdateTaskDropPartitionMsg(ctx context.Context, msg 
 		if err != nil {
 			return false, err
 		}
+		taskMsgs[msg.Base.MsgID] = msg
 		return msg.Base.IsReady(), nil
 	}
 	taskMsg.Base.ReadyChannels = lo.Union[string](taskMsg.Base.ReadyChannels, msg.Base.ReadyChannels)
